@@ -221,18 +221,19 @@ EXPECT_LINKED = ["alib", "shape_t", "asub", "afun", "agen"]
 
 
 def run_history(st: Stats, case):
-    a_opts1, a_opts2, form, clash, damage, refs = case
+    a_opts1, a_opts2, form, clash, damage, refs, *more = case
+    hist = more[0] if more else None  # None | b-twice | rebuild-between | two-names | cwd-parent | cwd-elsewhere
     root = fordrun.new_root()
-    stratum = f"form:{form}/clash:{clash or 'none'}/damage:{damage or 'none'}"
-    feats = dict(a_opts=a_opts1, a_rebuild=a_opts2 or "", form=form, clash=clash or "", damage=str(damage) if damage else "", refs=refs)
-    inp = dict(case=[a_opts1, a_opts2, form, clash, damage, refs])
+    stratum = f"form:{form}/clash:{clash or 'none'}/damage:{damage or 'none'}" + (f"/{hist}" if hist else "")
+    feats = dict(a_opts=a_opts1, a_rebuild=a_opts2 or "", form=form, clash=clash or "", damage=str(damage) if damage else "", refs=refs, history=hist or "")
+    inp = dict(case=[a_opts1, a_opts2, form, clash, damage, refs] + ([hist] if hist else []))
     st.evaluations += 1
     st.nontrivial.add(core.digest(inp))
     AOPT = {"default": {}, "private": dict(display=["public", "private", "protected"]), "nosrc": dict(incl_src=False), "alpha": dict(sort="alpha"), "graph": dict(graph=True)}
     try:
         a_root = root / "A"
         a = fordrun.build(A_SRC, dict(externalize=True, project="alib", **AOPT[a_opts1]), stage="write", root=a_root, keep=True)
-        if a_opts2:
+        if a_opts2 and hist != "rebuild-between":
             a = fordrun.build(A_SRC, dict(externalize=True, project="alib", **AOPT[a_opts2]), stage="write", root=a_root, keep=True)
         if a.error is not None or a.stage_reached != "write":
             st.violation("ford-failed-on-A", stratum, feats, inp, repr(a.error) + a.log[-200:], "A is built")
@@ -268,7 +269,21 @@ def run_history(st: Stats, case):
         b_files = {"src/bmod.f90": B_SRC.format(usemod="alib", refs=reftext)}
         if clash:
             b_files["src/own.f90"] = CLASH_SRC[clash]
-        b = fordrun.build(b_files, dict(external={"alib": ext}, project="bproj", display=["public", "private", "protected"]), stage="write", root=root / "B", keep=True)
+        externals = {"alib": ext, "alib_again": ext} if hist == "two-names" else {"alib": ext}
+        b_opts = dict(external=externals, project="bproj", display=["public", "private", "protected"])
+        # FORD started from another directory than the project file's: paths in the project file stay relative to the file
+        (root / "elsewhere").mkdir(exist_ok=True)
+        b_cwd = {"cwd-parent": root, "cwd-elsewhere": root / "elsewhere"}.get(hist)
+        if hist in ("b-twice", "rebuild-between"):
+            # the same process documents B (or another project using A) before: a first build of B, possibly a rebuild of A, then B again
+            b0 = fordrun.build(b_files, b_opts, stage="write", root=root / "B", keep=True)
+            st.transitions += 1
+            if hist == "rebuild-between":
+                a = fordrun.build(A_SRC, dict(externalize=True, project="alib", **AOPT[a_opts2]), stage="write", root=a_root, keep=True)
+                a_out = a.out
+                bad += check_export(st, a, stratum, feats, inp)
+            shutil.rmtree(root / "B" / "doc", ignore_errors=True)
+        b = fordrun.build(b_files, b_opts, stage="write", root=root / "B", keep=True, cwd=b_cwd)
         st.transitions += 1
         if b.error is not None or b.stage_reached != "write":
             bad += 1
@@ -356,6 +371,15 @@ def gen_cases(tier):
     for form in forms:
         yield ("default", None, form, "module", None, "none")
         yield ("private", None, form, "module", None, "none")
+    # longer histories in one process, the same external under two names, FORD started from another directory
+    for form in forms:
+        for refs in ("none", "plain"):
+            yield ("default", None, form, None, None, refs, "b-twice")
+            yield ("default", None, form, None, None, refs, "two-names")
+            yield ("default", None, form, None, None, refs, "cwd-parent")
+            yield ("default", None, form, None, None, refs, "cwd-elsewhere")
+            for a1, a2 in (("default", "private"), ("private", "default"), ("nosrc", "alpha")):
+                yield (a1, a2, form, None, None, refs, "rebuild-between")
     damages = [("absent", None), ("empty", None), ("notjson", None), ("wrongshape", {}), ("wrongshape", []), ("wrongshape", {"modules": "x"}),
                ("wrongshape", {"modules": [{"name": "alib"}]}), ("wrongshape", [1, 2, 3]), ("wrongshape", {"ford-metadata": {}, "modules": [None]})]
     pts = truncation_points()
@@ -375,7 +399,7 @@ def replay(path):
 
     st = Stats()
     c = rec["input"]["case"]
-    run_history(st, (c[0], c[1], c[2], c[3], tuple(c[4]) if c[4] else None, c[5]))
+    run_history(st, (c[0], c[1], c[2], c[3], tuple(c[4]) if c[4] else None, c[5]) + tuple(c[6:]))
     for v in st.violations:
         print("REPRODUCED", v["clause"], v["observed"])
     return 1 if st.violations else 0
@@ -395,7 +419,7 @@ def main(tier, replay_path=None):
         total.merge(st)
     return core.finish(
         PROP, tier, "model_checking", total, t0,
-        rule=("histories build A(opts1) [rebuild A(opts2)] [damage modules.json] build B: 4 option sets of A x 4 forms of the external (relative path, absolute path, http URL "
+        rule=("histories build A(opts1) [rebuild A(opts2)] [damage modules.json] [build B] [rebuild A] build B (also: the external listed under two names; FORD started from the parent / an unrelated directory): 4 option sets of A x 4 forms of the external (relative path, absolute path, http URL "
               "without / with trailing slash) x [[...]] reference styles; 5 rebuild pairs; module-level name clash x forms; modules.json absent / empty / not JSON / 6 wrong shapes / "
               + ("truncated after EVERY structural character" if tier == "thorough" else "truncated at ~60 structural boundaries") +
               ". transitions = builds of B; states = distinct sets of externally linked entities"),
